@@ -13,3 +13,4 @@ import Jb.Model.Vocoder
 import Jb.Props.C19
 import Jb.Props.C10
 import Jb.Props.C05
+import Jb.Props.C07
